@@ -55,7 +55,7 @@ func effMax(m int) int {
 const minMax = 32
 
 func pickMax(r *core.Rand) int {
-	switch r.Intn(10) {
+	switch r.Intn(11) {
 	case 0, 1:
 		return 0
 	case 2, 3:
@@ -66,6 +66,9 @@ func pickMax(r *core.Rand) int {
 		return r.Range(200, 1400)
 	case 7, 8:
 		return r.Range(1400, 1471)
+	case 9:
+		// smaller than an encrypted automatic sender / receiver report (28+14, 32+14)
+		return r.Range(minMax, 48)
 	}
 	return r.Pick(64, 100, 128, 256, 512, 576, 1024, 1200, 1400, 1460)
 }
@@ -298,7 +301,7 @@ func shrink(sc Scenario) []Scenario {
 			out = append(out, c)
 		}
 	}
-	if len(sc.Readers) > 1 {
+	if len(sc.Readers) > 0 {
 		for i := range sc.Readers {
 			uses := false
 			for _, w := range sc.Writes {
@@ -328,6 +331,23 @@ func shrink(sc Scenario) []Scenario {
 		out = append(out, c)
 	}
 	// simpler configuration
+	if sc.SrvMax != 0 {
+		c := sc.clone()
+		c.SrvMax = 0
+		out = append(out, c)
+	}
+	for i, p := range sc.Readers {
+		if p.Max != 0 {
+			c := sc.clone()
+			c.Readers[i].Max = 0
+			out = append(out, c)
+		}
+	}
+	if sc.Pub != nil && sc.Pub.Max != 0 {
+		c := sc.clone()
+		c.Pub.Max = 0
+		out = append(out, c)
+	}
 	if sc.MKI {
 		c := sc.clone()
 		c.MKI = false
